@@ -328,6 +328,13 @@ class Ctx:
                         self.spec_failures.append(f)
                     else:
                         self.spec_failures.append({"stream": stream})
+        # a sample of every stream once more with the library logging at DEBUG (a log line that decodes, indexes or mutates something
+        # is code like any other)
+        if not stream.endswith(DEBUG_SUFFIX) and not stream.startswith("corpus:") and cases and getattr(kind, "debug_rerun", True):
+            n = self.n(25, 150)
+            sample = cases[::max(1, len(cases) // n)][:n]
+            run = impl_for_stream(kind, stream + DEBUG_SUFFIX)
+            self.run_cases(kind, stream + DEBUG_SUFFIX, sample, exhaustive=False, outs=[run(a) for a in sample])
         return outs
 
 
@@ -421,3 +428,44 @@ def call_in_form(fn, names, values, form="positional"):
     if form == "partial-last":
         return functools.partial(fn, **{names[-1]: values[-1]})(**dict(list(kw.items())[:-1]))
     return fn(values[0], **dict(list(kw.items())[1:]))
+
+
+class debug_logging:
+    """`with debug_logging():` - the library's loggers at DEBUG with a handler that formats every record and throws it away (the
+    harness otherwise runs with logging disabled): what the library does must not depend on the log level"""
+
+    def __enter__(self):
+        import logging
+
+        class Swallow(logging.Handler):
+            def emit(self, record):
+                record.getMessage()
+        self.lg = logging.getLogger("aioswitcher")
+        self.saved = (logging.root.manager.disable, self.lg.level, self.lg.propagate)
+        self.h = Swallow()
+        logging.disable(logging.NOTSET)
+        self.lg.setLevel(logging.DEBUG)
+        self.lg.propagate = False
+        self.lg.addHandler(self.h)
+        return self
+
+    def __exit__(self, *exc):
+        import logging
+        self.lg.removeHandler(self.h)
+        self.lg.setLevel(self.saved[1])
+        self.lg.propagate = self.saved[2]
+        logging.disable(self.saved[0])
+        return False
+
+
+DEBUG_SUFFIX = "@debug-logging"
+
+
+def impl_for_stream(kind, stream):
+    """the implementation runner of a kind as the given stream runs it (a stream named …@debug-logging runs with the library logging at DEBUG)"""
+    if stream and stream.endswith(DEBUG_SUFFIX):
+        def run(a):
+            with debug_logging():
+                return kind.impl(a)
+        return run
+    return kind.impl
